@@ -63,10 +63,17 @@ def annotate_loops(body, loops, exlog):
     for header, inv in loops:
         if body.count(header) != 1:
             raise extract.ExtractError(f"loop header `{header}`: expected exactly one match, found {body.count(header)}")
+        ml = re.match(r"(.*\bloop)\s*\{\s*$", header, re.S)
         m = re.match(r"\s*for\s+(.+?)\s+in\s+(.+?)\s*\{\s*$", header)
-        if not m:
-            raise extract.ExtractError(f"loop header `{header}` is not a `for P in E {{` header")
-        new = f"for {m.group(1)} in it: {m.group(2)}\n    invariant\n" + "\n".join(inv) + "\n    {"
+        if ml:
+            # an unconditional `loop {`: the invariant clauses go between `loop` and `{`
+            # (clause lines may name their own kind: invariant_except_break / invariant / ensures)
+            own = any(re.match(r"\s*(invariant_except_break|invariant|ensures|decreases)\b", l) for l in inv)
+            new = f"{ml.group(1)}\n" + ("" if own else "    invariant\n") + "\n".join(inv) + "\n    {"
+        elif m:
+            new = f"for {m.group(1)} in it: {m.group(2)}\n    invariant\n" + "\n".join(inv) + "\n    {"
+        else:
+            raise extract.ExtractError(f"loop header `{header}` is not a `for P in E {{` or `loop {{` header")
         body = body.replace(header, new)
         exlog["rules_applied"].append({"where": "loop annotation", "loop_header": header, "invariant_clauses": len(inv)})
     return body
